@@ -68,22 +68,33 @@ def load(R):
                         "key.key not in self.latest"],
                modifies=["self.latest", "self.writes"])
 
+    R.contract(D + "delete_all_versions", assumed=True, types={"self": DS, "key": TOpt(DKey), "recursive": TBool},
+               raises={"OSError+": []},
+               ensures=["self.writes == old(self.writes) + 1", "key.key not in self.latest",
+                        "forall(VersionedDataSourceKey, lambda v: implies(v.key == key.key, v not in self.blobs))"],
+               modifies=["self.latest", "self.blobs", "self.writes"],
+               notes="interface: deletes every version of the key")
     S = "storage_base:Codec.BlobStrategy."
-    R.contract(S + "encode", assumed=True, types={"self": TEnt("BlobStrategy"), "obj": TObj()}, returns=TObj("nn:bytes"), ensures=["same(result, enc(obj))"],
-               notes="abstract method: the subclass's serialisation is a function of the object")
+    # serialisation is NOT assumed repeatable (pickling may have side effects): each call yields some bytes; ghost 'encoded' is what the
+    # latest call returned, ghost 'encode_calls' counts the calls
+    R.contract(S + "encode", assumed=True, types={"self": TEnt("BlobStrategy"), "obj": TObj()}, returns=TObj("nn:bytes"),
+               ensures=["same(ghost('encoded'), result)", "ghost('encode_calls') == old(ghost('encode_calls')) + 1"], modifies=["ghost:encoded", "ghost:encode_calls"],
+               notes="abstract method: some serialisation of the object; not assumed to be a function of the object")
     R.contract(S + "store", prop="C07", types={"self": TEnt("BlobStrategy"), "data_source": DS, "key_override": TOpt(TStr), "obj": TObj()}, returns=VKey,
+               ghost_params={"encoded": TObj(), "encode_calls": TInt},
                requires=["J(data_source)", "LINKS_OK(data_source)",
                          # stated precondition: a user-chosen key does not alias a content address
                          "implies(key_override is not None, not key_override.startswith('c/'))"],
                ensures=["J(data_source)", "LINKS_OK(data_source)", "OLD_BLOBS_KEPT(data_source)",
-                        "result in data_source.blobs", "same(data_source.blobs[result], enc(obj))",
+                        # the object is serialised exactly once; those bytes are what is hashed and what is stored
+                        "ghost('encode_calls') == old(ghost('encode_calls')) + 1",
+                        "result in data_source.blobs", "same(data_source.blobs[result], ghost('encoded'))",
                         # the key is derived solely from the SHA-256 of the serialized bytes
-                        "implies(not key_override, result.key == 'c/' + sha256hex(enc(obj)))",
+                        "implies(not key_override, result.key == 'c/' + sha256hex(ghost('encoded')))",
                         "implies(key_override, result.key == key_override)",
                         # deduplication: equal bytes share one stored object -- nothing is written when the content key exists
-                        "implies(not key_override and old('c/' + sha256hex(enc(obj)) in data_source.latest), data_source.writes == old(data_source.writes) "
-                        "and result.version == old(data_source.latest['c/' + sha256hex(enc(obj))]))",
-                        "implies(not (not key_override and old('c/' + sha256hex(enc(obj)) in data_source.latest)), data_source.writes == old(data_source.writes) + 1)"],
+                        "implies(not key_override and old(result.key in data_source.latest), data_source.writes == old(data_source.writes) and result.version == old(data_source.latest[result.key]))",
+                        "implies(not (not key_override and old(result.key in data_source.latest)), data_source.writes == old(data_source.writes) + 1)"],
                raises={"OSError+": ["J(data_source)", "OLD_BLOBS_KEPT(data_source)"]},
                modifies=["data_source.blobs", "data_source.latest", "data_source.writes"])
 
